@@ -47,8 +47,8 @@ static inline void do_op(uset_t* s, int tid, int slot, int op, int key) {
   if (op == OP_INSERT) {
     vp_op_begin(tid, slot, op, key);
 #if MULTI
-    auto it = s->insert(key);
-    vp_ins_result(tid, slot, key, 1, *it);
+    auto r = s->insert(key);
+    vp_ins_result(tid, slot, key, r.second, *r.first);
 #else
     auto r = s->insert(key);
     vp_ins_result(tid, slot, key, r.second, *r.first);
